@@ -31,6 +31,11 @@ type LCfg struct {
 	YieldProb   uint32   `json:"yield_prob"`
 	ShortReads  int      `json:"short_reads"`
 	Hostile     bool     `json:"hostile"`
+	Twin        bool     `json:"twin,omitempty"`       // the last producer advertises the same address and ports as the first (an nsqd that reconnected while its old connection lingers)
+	Conc        bool     `json:"conc,omitempty"`       // bursts of arbitrary (non-commuting) commands, checked against all interleavings of the key-level reference
+	Enum        int      `json:"enum,omitempty"`       // >0: this run is history number EnumIndex of the exhaustive enumeration of length Enum
+	EnumIndex   int64    `json:"enum_index,omitempty"`
+	EnumMirror  bool     `json:"enum_mirror,omitempty"` // mirror image (producers swapped) of another history of the enumeration: not run
 }
 
 type lPeer struct {
@@ -61,6 +66,7 @@ type lWorld struct {
 	tomb  map[lKey]map[int]time.Time // topic key -> producer -> tombstoned at
 	fuzzy map[lKey]bool              // ephemeral keys whose presence is not specified (empty after a disconnect)
 	hostileTouched map[lKey]bool     // keys a hostile connection may have registered for itself
+	ended bool // stop checking this run (an undecided concurrent burst)
 }
 
 func (w *lWorld) violate(prop, class, format string, a ...interface{}) {
@@ -82,6 +88,8 @@ func genLCfg(rc *RunCtx) LCfg {
 	c.YieldProb = uint32(r.Pick(0, 1024, 4096, 16384))
 	c.ShortReads = r.Pick(0, 0, 2, 8)
 	c.Hostile = rc.Prop == "C15"
+	c.Twin = !c.Hostile && c.NProducers >= 2 && r.Chance(1, 4)
+	c.Conc = !c.Hostile && !c.Twin && r.Chance(1, 2)
 	return c
 }
 
@@ -132,6 +140,17 @@ func genLOps(rc *RunCtx, c LCfg) []Op {
 			o = Op{Kind: "adv", A: ms[r.Intn(len(ms))]}
 		case 13:
 			o = genHostile(r, c)
+		}
+		if c.Conc {
+			// concurrent bursts: anything goes (same topic, admin calls, disconnects); the oracle explores the interleavings
+			if (o.Kind == "register" || o.Kind == "unregister" || o.Kind == "ping" || o.Kind == "http" || o.Kind == "close") && r.Chance(1, 2) {
+				o.Burst = true
+				if r.Chance(1, 4) {
+					add(Op{Kind: "bgread", Burst: true, S: r.PickS("/debug", "/nodes", "/topics", "/lookup?topic=t0", "/channels?topic=t0", "/debug")})
+				}
+			}
+			add(o)
+			continue
 		}
 		// bursts: operations of distinct producers on distinct topics commute
 		if (o.Kind == "register" || o.Kind == "unregister" || o.Kind == "ping") && r.Chance(1, 4) {
@@ -252,12 +271,19 @@ func lookupdWorld(rc *RunCtx) {
 			panic(err)
 		}
 		ops = rc.Replay.Ops
+	} else if n, idx := lEnumFor(rc); n > 0 {
+		w.cfg, ops = genLEnum(idx, n)
 	} else {
 		w.cfg = genLCfg(rc)
 		ops = genLOps(rc, w.cfg)
 	}
 	c := w.cfg
 	if rc.GenOnly(c, ops) {
+		return
+	}
+	if c.EnumMirror {
+		rc.Probe("enumerated_histories_len" + fmt.Sprint(c.Enum) + "_mirror_images_skipped")
+		rc.Res.Ops = 0
 		return
 	}
 	rc.Sched.Prob = c.YieldProb
@@ -283,6 +309,10 @@ func lookupdWorld(rc *RunCtx) {
 	for i := 0; i < c.NProducers; i++ {
 		w.peers = append(w.peers, &lPeer{idx: i, bcast: fmt.Sprintf("nsqd%d.sim", i), tcpPort: 4150 + 10*i, httpPort: 4151 + 10*i, hostname: fmt.Sprintf("host%d", i)})
 	}
+	if c.Twin && len(w.peers) >= 2 {
+		a, b := w.peers[0], w.peers[len(w.peers)-1]
+		b.bcast, b.tcpPort, b.httpPort, b.hostname = a.bcast, a.tcpPort, a.httpPort, a.hostname
+	}
 	synctest.Wait()
 	rc.Logf("cfg %+v", c)
 	var burst []Op
@@ -298,6 +328,9 @@ func lookupdWorld(rc *RunCtx) {
 		}
 		w.runBurst(burst)
 		burst = nil
+		if rc.Failed() || w.ended {
+			break
+		}
 		w.exec(op)
 		synctest.Wait()
 		w.checkReads()
@@ -305,9 +338,18 @@ func lookupdWorld(rc *RunCtx) {
 			break
 		}
 	}
-	if !rc.Failed() {
+	if !rc.Failed() && !w.ended {
 		w.runBurst(burst)
-		w.checkReads()
+		if !rc.Failed() && !w.ended {
+			w.checkReads()
+		}
+	}
+	if c.Enum > 0 && !rc.Failed() {
+		if c.EnumMirror {
+			rc.Probe(fmt.Sprintf("enumerated_histories_len%d_mirror_images_skipped", c.Enum))
+		} else {
+			rc.Probe(fmt.Sprintf("enumerated_histories_len%d", c.Enum))
+		}
 	}
 	rc.Res.Ops = len(ops)
 	rc.Res.Nontrivial = rc.probes["reads_checked"] > 0 && len(ops) > 4
@@ -341,6 +383,18 @@ func (w *lWorld) chanName(i int64) string {
 // burstCompatible: only operations of distinct producers on distinct topics
 // (they commute, so the expected state after the burst is unambiguous).
 func (w *lWorld) burstCompatible(burst []Op, op Op) bool {
+	if w.cfg.Conc {
+		if !w.concCompatible(burst, op) {
+			return false
+		}
+		// keys whose presence is unspecified would need a non-deterministic snapshot in the reference: keep such topics sequential
+		for k := range w.fuzzy {
+			if op.Kind == "close" || k.key == w.topicName(op.B) {
+				return false
+			}
+		}
+		return true
+	}
 	if len(burst) >= 4 {
 		return false
 	}
@@ -366,6 +420,10 @@ func (w *lWorld) burstCompatible(burst []Op, op Op) bool {
 
 func (w *lWorld) runBurst(burst []Op) {
 	if len(burst) == 0 {
+		return
+	}
+	if w.cfg.Conc {
+		w.runConcBurst(burst)
 		return
 	}
 	w.rc.Probe("bursts")
@@ -560,6 +618,8 @@ func (w *lWorld) peerGone(p *lPeer) {
 		if set[p.idx] {
 			delete(set, p.idx)
 			if len(set) == 0 && (strings.HasSuffix(k.key, "#ephemeral") || strings.HasSuffix(k.sub, "#ephemeral")) {
+				// an ephemeral registration nobody holds any more: the statement does not say whether it is still listed
+				delete(w.keys, k)
 				w.fuzzy[k] = true
 			}
 		}
@@ -689,13 +749,16 @@ func (w *lWorld) execHTTP(op Op) {
 		if op.D == 4 {
 			return
 		}
-		p := w.peers[int(uint64(op.A)%uint64(len(w.peers)))]
+		p0 := w.peers[int(uint64(op.A)%uint64(len(w.peers)))]
 		k := lKey{"topic", t, ""}
-		if w.keys[k][p.idx] {
-			if w.tomb[k] == nil {
-				w.tomb[k] = map[int]time.Time{}
+		for _, p := range w.peers {
+			// the tombstone names an advertised address: it covers every connection that advertises it
+			if p.bcast == p0.bcast && p.httpPort == p0.httpPort && w.keys[k][p.idx] {
+				if w.tomb[k] == nil {
+					w.tomb[k] = map[int]time.Time{}
+				}
+				w.tomb[k][p.idx] = time.Now()
 			}
-			w.tomb[k][p.idx] = time.Now()
 		}
 	}
 }
@@ -975,17 +1038,27 @@ func setOf(xs []string) string {
 	return strings.Join(s, ",")
 }
 
-func (w *lWorld) checkReads() {
+// lObs is what the read endpoints answered at one quiescent point.
+type lObs struct {
+	topicsSt int
+	topicsOK bool
+	topics   []string
+	chSt     map[string]int
+	chOK     map[string]bool
+	chans    map[string][]string
+	lkSt     map[string]int
+	lkOK     map[string]bool
+	lkChans  map[string][]string
+	lkProd   map[string][]lProducer
+	nodesSt  int
+	nodesOK  bool
+	nodes    []lProducer
+}
+
+// fetchObs reads /topics, /channels, /lookup (for every topic of the universe) and /nodes.
+// Transport or JSON failures are violations at once (they do not depend on the model).
+func (w *lWorld) fetchObs(prop string) *lObs {
 	rc := w.rc
-	for k := range w.hostileTouched {
-		if _, ex := w.keys[k]; !ex {
-			w.fuzzy[k] = true
-		}
-	}
-	prop := "C14"
-	if w.cfg.Hostile {
-		prop = "C15" // here the model only contains the bystanders: their registrations must be intact
-	}
 	rc.Probe("reads_checked")
 	get := func(path string, v interface{}) (int, bool) {
 		resp := httpDo(rc, "GET", w.http, path, nil, nil, nil, 30*time.Second)
@@ -1001,126 +1074,175 @@ func (w *lWorld) checkReads() {
 		}
 		return resp.Status, true
 	}
-	// /topics
+	o := &lObs{chSt: map[string]int{}, chOK: map[string]bool{}, chans: map[string][]string{}, lkSt: map[string]int{}, lkOK: map[string]bool{},
+		lkChans: map[string][]string{}, lkProd: map[string][]lProducer{}}
 	var tr struct {
 		Topics []string `json:"topics"`
 	}
-	if st, ok := get("/topics", &tr); ok {
-		var want, opt []string
-		for k := range w.keys {
-			if k.cat == "topic" {
-				want = append(want, k.key)
-			}
-		}
-		for k := range w.fuzzy {
-			if k.cat == "topic" {
-				opt = append(opt, k.key)
-			}
-		}
-		if st != 200 || !setEqualModulo(tr.Topics, want, opt) {
-			w.violate(prop, "topics-mismatch", "/topics -> %d [%s], model [%s] (optional [%s])", st, setOf(tr.Topics), setOf(want), setOf(opt))
-		}
-	}
-	universe := append([]string(nil), w.cfg.Topics...)
-	for _, t := range universe {
-		var want, opt []string
-		for k := range w.keys {
-			if k.cat == "channel" && k.key == t {
-				want = append(want, k.sub)
-			}
-		}
-		for k := range w.fuzzy {
-			if k.cat == "channel" && k.key == t {
-				opt = append(opt, k.sub)
-			}
-		}
+	o.topicsSt, o.topicsOK = get("/topics", &tr)
+	o.topics = tr.Topics
+	for _, t := range w.cfg.Topics {
 		var cr struct {
 			Channels []string `json:"channels"`
 		}
-		if st, ok := get("/channels?topic="+url.QueryEscape(t), &cr); ok {
-			if st != 200 || !setEqualModulo(cr.Channels, want, opt) {
-				w.violate(prop, "channels-mismatch", "/channels?topic=%s -> %d [%s], model [%s] (optional [%s])", t, st, setOf(cr.Channels), setOf(want), setOf(opt))
-			}
-		}
+		o.chSt[t], o.chOK[t] = get("/channels?topic="+url.QueryEscape(t), &cr)
+		o.chans[t] = cr.Channels
 		var lr struct {
 			Channels  []string    `json:"channels"`
 			Producers []lProducer `json:"producers"`
 		}
-		st, ok := get("/lookup?topic="+url.QueryEscape(t), &lr)
-		if !ok {
+		o.lkSt[t], o.lkOK[t] = get("/lookup?topic="+url.QueryEscape(t), &lr)
+		o.lkChans[t], o.lkProd[t] = lr.Channels, lr.Producers
+	}
+	var nr struct {
+		Producers []lProducer `json:"producers"`
+	}
+	o.nodesSt, o.nodesOK = get("/nodes", &nr)
+	o.nodes = nr.Producers
+	return o
+}
+
+// lState is the registry model: registration keys with their producer sets,
+// tombstone marks, and the ephemeral keys whose presence is not specified.
+type lState struct {
+	keys  map[lKey]map[int]bool
+	tomb  map[lKey]map[int]time.Time
+	fuzzy map[lKey]bool
+	orph  map[lKey]bool // inside a concurrent burst: ephemeral registrations a disconnect has emptied
+}
+
+func (w *lWorld) cur() *lState { return &lState{keys: w.keys, tomb: w.tomb, fuzzy: w.fuzzy} }
+
+func (w *lWorld) tombstonedIn(st *lState, topic string, idx int) bool {
+	at, ok := st.tomb[lKey{"topic", topic, ""}][idx]
+	return ok && time.Since(at) < ms(w.cfg.TombstoneMs)
+}
+
+// compare returns "" when the observation equals what the state predicts, else (class, detail) of the first difference.
+func (w *lWorld) compare(o *lObs, st *lState) (string, string) {
+	if o.topicsOK {
+		var want, opt []string
+		for k := range st.keys {
+			if k.cat == "topic" {
+				want = append(want, k.key)
+			}
+		}
+		for k := range st.fuzzy {
+			if k.cat == "topic" {
+				opt = append(opt, k.key)
+			}
+		}
+		if o.topicsSt != 200 || !setEqualModulo(o.topics, want, opt) {
+			return "topics-mismatch", fmt.Sprintf("/topics -> %d [%s], model [%s] (optional [%s])", o.topicsSt, setOf(o.topics), setOf(want), setOf(opt))
+		}
+	}
+	for _, t := range w.cfg.Topics {
+		var want, opt []string
+		for k := range st.keys {
+			if k.cat == "channel" && k.key == t {
+				want = append(want, k.sub)
+			}
+		}
+		for k := range st.fuzzy {
+			if k.cat == "channel" && k.key == t {
+				opt = append(opt, k.sub)
+			}
+		}
+		if o.chOK[t] {
+			if o.chSt[t] != 200 || !setEqualModulo(o.chans[t], want, opt) {
+				return "channels-mismatch", fmt.Sprintf("/channels?topic=%s -> %d [%s], model [%s] (optional [%s])", t, o.chSt[t], setOf(o.chans[t]), setOf(want), setOf(opt))
+			}
+		}
+		if !o.lkOK[t] {
 			continue
 		}
+		st0 := o.lkSt[t]
 		tk := lKey{"topic", t, ""}
-		_, exists := w.keys[tk]
+		_, exists := st.keys[tk]
 		if !exists {
-			if st != 404 && !(w.fuzzy[tk] && st == 200) {
-				w.violate(prop, "lookup-unknown-topic", "/lookup?topic=%s -> %d, model: topic unknown", t, st)
+			if st0 != 404 && !(st.fuzzy[tk] && st0 == 200) {
+				return "lookup-unknown-topic", fmt.Sprintf("/lookup?topic=%s -> %d, model: topic unknown", t, st0)
 			}
-			if st != 200 {
+			if st0 != 200 {
 				continue
 			}
-		} else if st != 200 {
-			w.violate(prop, "lookup-known-topic", "/lookup?topic=%s -> %d, model: topic known", t, st)
-			continue
+		} else if st0 != 200 {
+			return "lookup-known-topic", fmt.Sprintf("/lookup?topic=%s -> %d, model: topic known", t, st0)
 		}
 		var wantP []string
-		for idx := range w.keys[tk] {
-			if w.active(idx) && !w.tombstoned(t, idx) {
+		for idx := range st.keys[tk] {
+			if w.active(idx) && !w.tombstonedIn(st, t, idx) {
 				wantP = append(wantP, w.peers[idx].bcast)
 			}
 		}
 		var gotP []string
-		for _, p := range lr.Producers {
+		for _, p := range o.lkProd[t] {
 			if !strings.HasPrefix(p.BroadcastAddress, "nsqd") {
 				continue // a hostile connection that identified itself
 			}
 			gotP = append(gotP, p.BroadcastAddress)
 		}
 		if setOf(gotP) != setOf(wantP) {
-			w.violate(prop, "lookup-producers", "/lookup?topic=%s producers [%s], model [%s]", t, setOf(gotP), setOf(wantP))
+			return "lookup-producers", fmt.Sprintf("/lookup?topic=%s producers [%s], model [%s]", t, setOf(gotP), setOf(wantP))
 		}
-		if !setEqualModulo(lr.Channels, want, opt) {
-			w.violate(prop, "lookup-channels", "/lookup?topic=%s channels [%s], model [%s]", t, setOf(lr.Channels), setOf(want))
+		if !setEqualModulo(o.lkChans[t], want, opt) {
+			return "lookup-channels", fmt.Sprintf("/lookup?topic=%s channels [%s], model [%s]", t, setOf(o.lkChans[t]), setOf(want))
 		}
 	}
-	// /nodes
-	var nr struct {
-		Producers []lProducer `json:"producers"`
-	}
-	if st, ok := get("/nodes", &nr); ok {
-		want := map[string]string{}
+	if o.nodesOK {
+		var want, got []string // multisets: two connections may advertise the same address
 		for idx, p := range w.peers {
 			if !w.active(idx) {
 				continue
 			}
 			var ts []string
-			for k, set := range w.keys {
+			for k, set := range st.keys {
 				if k.cat == "topic" && set[idx] {
-					ts = append(ts, fmt.Sprintf("%s=%v", k.key, w.tombstoned(k.key, idx)))
+					ts = append(ts, fmt.Sprintf("%s=%v", k.key, w.tombstonedIn(st, k.key, idx)))
 				}
 			}
 			sort.Strings(ts)
-			want[p.bcast] = strings.Join(ts, ",")
+			want = append(want, p.bcast+":["+strings.Join(ts, ",")+"]")
 		}
-		got := map[string]string{}
-		for _, n := range nr.Producers {
+		for _, n := range o.nodes {
 			if !strings.HasPrefix(n.BroadcastAddress, "nsqd") {
 				continue // a hostile connection that identified itself successfully is a producer too
 			}
 			if len(n.Topics) != len(n.Tombstones) {
-				w.violate(prop, "nodes-shape", "/nodes: %s has %d topics and %d tombstone flags", n.BroadcastAddress, len(n.Topics), len(n.Tombstones))
-				continue
+				return "nodes-shape", fmt.Sprintf("/nodes: %s has %d topics and %d tombstone flags", n.BroadcastAddress, len(n.Topics), len(n.Tombstones))
 			}
 			var ts []string
 			for i, t := range n.Topics {
 				ts = append(ts, fmt.Sprintf("%s=%v", t, n.Tombstones[i]))
 			}
 			sort.Strings(ts)
-			got[n.BroadcastAddress] = strings.Join(ts, ",")
+			got = append(got, n.BroadcastAddress+":["+strings.Join(ts, ",")+"]")
 		}
-		if st != 200 || fmt.Sprint(got) != fmt.Sprint(want) {
-			w.violate(prop, "nodes-mismatch", "/nodes -> %d %v, model %v", st, got, want)
+		sort.Strings(got)
+		sort.Strings(want)
+		if o.nodesSt != 200 || fmt.Sprint(got) != fmt.Sprint(want) {
+			return "nodes-mismatch", fmt.Sprintf("/nodes -> %d %v, model %v", o.nodesSt, got, want)
 		}
+	}
+	return "", ""
+}
+
+func (w *lWorld) checkReads() {
+	for k := range w.hostileTouched {
+		if _, ex := w.keys[k]; !ex {
+			w.fuzzy[k] = true
+		}
+	}
+	prop := "C14"
+	if w.cfg.Hostile {
+		prop = "C15" // here the model only contains the bystanders: their registrations must be intact
+	}
+	o := w.fetchObs(prop)
+	if w.rc.Failed() {
+		return
+	}
+	if class, detail := w.compare(o, w.cur()); class != "" {
+		w.violate(prop, class, "%s", detail)
 	}
 }
 
